@@ -20,6 +20,7 @@ EXPLANATION = "C07: R/P obligations on tokenize, parse_with_warnings, WriteTool.
 ASSUMPTIONS = ["canonical text contains no alias lexeme outside strings/comments/zones (C03.R2/R3)", "parser receipts are bounded (B)"]
 TRUSTED_BASE = ["verif.reglang", "verif.pyvc", "verif.bounded.model", "z3", "cvc5"]
 LEXER = "octave_mcp.core.lexer"
+WRITE = "octave_mcp.mcp.write"
 
 
 def probe_receipts():
@@ -90,6 +91,66 @@ def ob_position_update(ctx: Ctx) -> Outcome:
     out = contract_outcome(RC.POSITION_UPDATE, "contracts.receipts:POSITION_UPDATE")
     if out.status == "undecided":
         return shape_verdict("pyvc", [out.detail[:200]], probe_positions, 7, {"runner": "props.C07:probe_positions", "args": {}})
+    return out
+
+
+def probe_brace_repair() -> tuple[bool, str]:
+    """concrete stand-in for C07.P9 when the helper has another shape: the hand-built brace documents of C07.B3"""
+    from props import C07_b
+
+    bad = []
+    for i, (text, want, keep) in enumerate(C07_b.brace_cases()):
+        p = C07_b._brace_one(text, want, keep)
+        if p:
+            bad.append(f"case {i}: {p[:200]}")
+    return (bool(bad), "; ".join(bad[:3]) or "all hand-built brace documents repaired exactly at their live occurrences")
+
+
+def ob_protected_lookup(ctx: Ctx) -> Outcome:
+    """C07.P9: the nested helper `_is_protected` of the brace repair under contract (result <=> some protected range
+    contains the position, given sorted starts), plus the frame the precondition relies on: `protected.sort()` runs
+    after the last append and before the helper's only uses, and matches are filtered by `not _is_protected(match.start())`."""
+    from contracts import receipts as RC
+    from verif.common import shape_verdict
+    from verif.pyvc.adapter import contract_outcome
+
+    rp = {"runner": "props.C07:probe_brace_repair", "args": {}}
+    try:
+        fn = extract.find_def(WRITE, "WriteTool._repair_curly_brace_annotations")
+        RC._is_protected_fn()
+    except extract.ExtractionError as e:
+        return shape_verdict("pyvc", [str(e)], probe_brace_repair, 1, rp)
+    problems = []
+    sorts = [n for n in ast.walk(fn) if isinstance(n, ast.Call) and isinstance(n.func, ast.Attribute) and n.func.attr == "sort" and isinstance(n.func.value, ast.Name) and n.func.value.id == "protected" and not n.args and not n.keywords]
+    appends = [n for n in ast.walk(fn) if isinstance(n, ast.Call) and isinstance(n.func, ast.Attribute) and n.func.attr in ("append", "extend", "insert") and isinstance(n.func.value, ast.Name) and n.func.value.id == "protected"]
+    uses = [n for n in ast.walk(fn) if isinstance(n, ast.Call) and isinstance(n.func, ast.Name) and n.func.id == "_is_protected"]
+    rebinds = [n for n in ast.walk(fn) if isinstance(n, ast.Name) and n.id == "protected" and isinstance(n.ctx, ast.Store)]
+    top = {id(st): k for k, st in enumerate(fn.body)}
+
+    def top_index(node):
+        for k, st in enumerate(fn.body):
+            if any(x is node for x in ast.walk(st)):
+                return k
+        return -1
+
+    if len(sorts) != 1 or top_index(sorts[0]) < 0 or not isinstance(fn.body[top_index(sorts[0])], ast.Expr):
+        problems.append("`protected.sort()` is not a single unconditional top-level statement")
+    else:
+        ks = top_index(sorts[0])
+        if any(top_index(a) >= ks for a in appends):
+            problems.append("protected grows after it was sorted")
+        if any(top_index(u) <= ks for u in uses) or not uses:
+            problems.append("_is_protected is used before the sort (or never)")
+        if len(rebinds) != 1 or top_index(rebinds[0]) >= ks:
+            problems.append("protected is rebound")
+    filt = [n for n in ast.walk(fn) if isinstance(n, ast.If) and ast.unparse(n.test) == "not _is_protected(match.start())"]
+    if len(filt) != 1 or len(uses) != 1:
+        problems.append("matches are not filtered by `not _is_protected(match.start())` exactly once")
+    if problems:
+        return shape_verdict("ast-frame", problems, probe_brace_repair, 1, rp)
+    out = contract_outcome(RC.IS_PROTECTED, "contracts.receipts:IS_PROTECTED")
+    if out.status == "undecided":
+        return shape_verdict("pyvc", [out.detail[:200]], probe_brace_repair, 1, rp)
     return out
 
 
@@ -182,6 +243,7 @@ def obligations(ctx: Ctx):
     P = PROPERTY
     obs = [
         Ob(f"{P}.P1", "R", "lexer: normalization receipt iff token.normalized_from, with the token's own position", [LEXER + ":tokenize"], ob_receipt_coupling),
+        Ob(f"{P}.P9", "P", "brace repair: the protected-range lookup answers 'inside some protected range' exactly (sorted starts; the sort dominates the uses)", [WRITE + ":WriteTool._repair_curly_brace_annotations"], ob_protected_lookup),
         Ob(f"{P}.P8", "P", "tokenize position bookkeeping: a token moves the line by the number of \\n it contains (nothing else is a line break), the column by its length / to after its last \\n", [LEXER + ":tokenize"], ob_position_update),
         Ob(f"{P}.R1", "R", "normalized_from iff the lexeme is a documented ASCII alias (or triple quote)", [LEXER + ":tokenize"], ob_alias_lexemes),
         Ob(f"{P}.R2.ident", "R", "canonical bare values re-lex without alias tokens (identifier class)", LX.FUNCS_EMIT + LX.FUNCS_LEX, lambda ctx: LX.ob_ident(ctx, oid=f"{P}.R2", which="ident")),
@@ -191,6 +253,12 @@ def obligations(ctx: Ctx):
     for n in (0, 1, 2):
         obs.append(contract_ob(f"{P}.P5.map.n{n}", f"_map_parse_warnings_to_corrections: one correction per rewrite warning ({n} warnings)", (lambda n=n: RC.map_warnings_contract(n)), f"contracts.receipts:map_warnings_contract({n})"))
         obs.append(contract_ob(f"{P}.P5.track.n{n}", f"_track_corrections: W002 iff normalization record ({n} records)", (lambda n=n: RC.track_corrections_contract(n)), f"contracts.receipts:track_corrections_contract({n})"))
+    try:
+        from props import C07_b as _b
+
+        obs.append(Ob(f"{P}.B3", "B", "brace-for-angle repair of octave_write(lenient): one receipt per live occurrence; strings, comments and literal zones untouched", ["octave_mcp.mcp.write:WriteTool._repair_curly_brace_annotations"], _b.ob_b3, timeout=1200))
+    except ImportError:
+        pass
     obs.append(Ob(f"{P}.B1", "B", "multiset of receipts == multiset of injected rewrites; canonical text yields none", ["octave_mcp.core.parser:parse_with_warnings"], ob_b1, timeout=3000))
     try:
         from props import C07_b
